@@ -45,6 +45,7 @@ func isInvalidTextErr(err error) bool {
 //@ func TrimSuffixWhitespace
 //@ property C07 C12 C20
 //@ ensures prefix: len(result) <= len(b) && vForall(0, len(result), func(i int) bool { return result[i] == b[i] })
+//@ ensures slice: sameSlice(result, b[:len(result)])
 //@ ensures trimmed: vForall(len(result), len(b), func(i int) bool { return isWS(b[i]) })
 //@ ensures maximal: len(result) == 0 || !isWS(b[len(result)-1])
 //@ loop 0 invariant -1 <= n && n < len(b)
@@ -58,6 +59,7 @@ func isInvalidTextErr(err error) bool {
 //@ func TrimSuffixByte
 //@ property C07 C20
 //@ ensures len-is: len(result) == ite(len(b) > 0 && b[len(b)-1] == c, len(b)-1, len(b))
+//@ ensures slice: sameSlice(result, b[:len(result)])
 //@ ensures prefix: vForall(0, len(result), func(i int) bool { return result[i] == b[i] })
 
 //@ func isInvalidUTF8
@@ -72,8 +74,10 @@ func isInvalidTextErr(err error) bool {
 //@ func TrimSuffixString
 //@ property C07 C20
 //@ ensures prefix: len(result) <= len(b) && vForall(0, len(result), func(i int) bool { return result[i] == b[i] })
+//@ ensures slice: sameSlice(result, b[:len(result)])
 //@ ensures cut: len(b) >= 2 && b[len(b)-1] == '"' && len(result) >= 2 ==> b[len(result)] == '"' && b[len(result)-1] != '\\'
 //@ loop 0 invariant len(b) <= len(old(b)) && vForall(0, len(b), func(i int) bool { return b[i] == old(b)[i] })
+//@ loop 0 invariant sameSlice(b, old(b)[:len(b)])
 //@ loop 0 invariant len(old(b)) > 0 && old(b)[len(old(b))-1] == '"' ==> len(b) < len(old(b))
 //@ loop 0 decreases len(b)
 
